@@ -128,6 +128,9 @@ type rcb struct {
 type rmsg struct {
 	Op  int   `json:"op"`
 	Pay []int `json:"pay"`
+	// position-coded scenarios: the payload is the coded range [lo, hi)
+	Lo int `json:"lo"`
+	Hi int `json:"hi"`
 }
 
 // rev is a reader event; every field is always present.
@@ -383,6 +386,7 @@ func runReader(sc *rscenario) (evs []interface{}) {
 			}
 		}
 	case "readmessage":
+		lastPosRM := 0
 		for i := 0; i < readBudget; i++ {
 			var msgs []wsutil.Message
 			var err error
@@ -395,9 +399,23 @@ func runReader(sc *rscenario) (evs []interface{}) {
 			}
 			e := newRev("ReadMessage")
 			for _, m := range msgs {
-				e.Msgs = append(e.Msgs, rmsg{int(m.OpCode), vh.Ints(m.Payload)})
+				rm := rmsg{int(m.OpCode), vh.Ints(m.Payload), -1, -1}
+				if sc.Coded && !m.OpCode.IsControl() {
+					// the payload is named by the coded range it carries, if it is one
+					for _, f := range sc.Frames {
+						if f.Hs >= lastPosRM && f.Op == int(m.OpCode) && vh.MatchP(0, f.Base, m.Payload) {
+							rm = rmsg{int(m.OpCode), []int{}, f.Base, f.Base + len(m.Payload)}
+							break
+						}
+					}
+					if rm.Lo < 0 && len(rm.Pay) > 64 {
+						rm.Pay, rm.Lo = rm.Pay[:64], -2 // no coded range: a sample of what came instead
+					}
+				}
+				e.Msgs = append(e.Msgs, rm)
 			}
 			e.Pulled = src.Pos
+			lastPosRM = src.Pos
 			e.setErr(err)
 			evs = append(evs, e)
 			if err != nil {
